@@ -19,6 +19,9 @@ func parserFamily(c *Ctx, kind string) []*family.Grammar {
 	var gs []*family.Grammar
 	gs = append(gs, family.Long()...) // first: their jobs are the longest
 	gs = append(gs, family.Shapes()...)
+	if c.Prop == "C02" || c.Prop == "C04" || c.Prop == "C11" {
+		gs = append(gs, family.LookaheadSwitched()...)
+	}
 	gs = append(gs, family.Emission()...)
 	gs = append(gs, family.EndLookahead()...)
 	basis := family.Dedup(family.Basis(size))
@@ -300,12 +303,30 @@ func init() {
 	gramSpecs["C04"] = func(c *Ctx) ([]*family.Grammar, *GramSpec) {
 		N := maxN(c)
 		stdBounds(c, N)
+		// the action trace is checked against the reference under every option set that keeps
+		// the AST (the -noast sets run their actions inline; that is C07's subject)
+		c.Bounds["option_sets"] = "default, -inline, -switch, -inline -switch: each parser's Execute() trace against the reference on the same symbolic input"
+		opt := []string{"i", "s", "is"}
 		return parserFamily(c, "actions"), &GramSpec{
-			Variants: []string{"d"},
+			Variants: []string{"d", "i", "s", "is"},
 			Entries: func(gg *GenGrammar) []EntrySpec {
-				return []EntrySpec{{Name: "C04", Params: "n int", Body: "hl.C04(G, vd.New, n, NSW)"}}
+				es := []EntrySpec{{Name: "C04", Params: "n int", Body: "hl.C04(G, vd.New, n, NSW)"}}
+				for _, vn := range opt {
+					if gg.OK(vn) {
+						es = append(es, EntrySpec{Name: "C04" + vn, Params: "n int", Body: "hl.C04(G, v" + vn + ".New, n, NSW)"})
+					}
+				}
+				return es
 			},
-			Jobs:              func(gg *GenGrammar) []*Job { return lenJobs("C04", nFor(c, gg, N)) },
+			Jobs: func(gg *GenGrammar) []*Job {
+				jobs := lenJobs("C04", nFor(c, gg, N))
+				for _, vn := range opt {
+					if gg.OK(vn) {
+						jobs = append(jobs, lenJobs("C04"+vn, nFor(c, gg, N))...)
+					}
+				}
+				return jobs
+			},
 			LongJobs:          stdLong(c, "C04", 1000),
 			BrokenIsViolation: true, ValidateEveryGrammar: validateEvery(c), Cfg: parserCfg(c),
 		}
@@ -398,14 +419,39 @@ func init() {
 		stdBounds(c, N)
 		c.Assumptions = append(c.Assumptions, "A-QUOTE: strconv.Quote is modelled as an uninterpreted function of its argument",
 			"position convention: the (line, column) of offset p is that of the rune at p: line = 1 + newlines before p, column = 1 + runes since the last newline")
+		// The error token and message are also checked under the seven other option sets (the
+		// furthest-token bookkeeping sits in add(), which -inline and -noast emit differently):
+		// for the curated shapes and every sixth (thorough: twenty-fourth) other grammar.
+		c.Bounds["option_sets"] = "default on every grammar; -inline, -switch, -inline -switch on the curated shapes and on every 8th (thorough tier: every 24th) other grammar; -noast, -noast -inline, -noast -switch, -noast -inline -switch on those of them that have no <...> capture (without the AST a capture records no token, so the reference's capture tokens are not candidates for the error token there)"
+		opt := []string{"i", "s", "is", "n", "ni", "ns", "nis"}
+		every := 8
+		if !c.Quick() {
+			every = 24
+		}
+		optOn := func(gg *GenGrammar) bool { return strings.HasPrefix(gg.G.Tag, "shape/") || gg.Idx%every == 0 }
 		return parserFamily(c, ""), &GramSpec{
-			Variants: []string{"d"},
+			Variants: []string{"d", "i", "s", "is", "n", "ni", "ns", "nis"},
 			Entries: func(gg *GenGrammar) []EntrySpec {
-				return []EntrySpec{{Name: "C11", Params: "n int", Body: "hl.C11(G, vd.New, strconv.Quote, n, NSW)"},
+				es := []EntrySpec{{Name: "C11", Params: "n int", Body: "hl.C11(G, vd.New, strconv.Quote, n, NSW)"},
 					{Name: "C11Reuse", Params: "n1, n2 int", Body: "hl.C11Reuse(G, vd.New, strconv.Quote, n1, n2, NSW)"}}
+				if optOn(gg) {
+					for _, vn := range opt {
+						if gg.OK(vn) && !(variants[vn].NoAST && gg.G.HasCap) {
+							es = append(es, EntrySpec{Name: "C11" + vn, Params: "n int", Body: "hl.C11(G, v" + vn + ".New, strconv.Quote, n, NSW)"})
+						}
+					}
+				}
+				return es
 			},
 			Jobs: func(gg *GenGrammar) []*Job {
 				jobs := lenJobs("C11", nFor(c, gg, N))
+				if optOn(gg) {
+					for _, vn := range opt {
+						if gg.OK(vn) && !(variants[vn].NoAST && gg.G.HasCap) {
+							jobs = append(jobs, lenJobs("C11"+vn, nFor(c, gg, N))...)
+						}
+					}
+				}
 				if strings.HasPrefix(gg.G.Tag, "shape/") || gg.Idx%6 == 0 {
 					for _, ns := range [][2]int{{3, 2}, {2, 3}, {3, 3}, {3, 0}, {3, 1}} {
 						jobs = append(jobs, &Job{Entry: "C11Reuse", Args: []int{ns[0], ns[1]}})
